@@ -41,9 +41,9 @@ vars == <<ti, l, q, o, bad, badpos, kbad, kpos, drift, driftpos>>
 CfgOf(T) == [lat |-> T.cfg.lat, rdel |-> T.cfg.rdel, maxr |-> T.cfg.maxr, cap |-> T.cfg.cap, dlq |-> T.cfg.dlq]
 
 Obs0(T) == [p |-> <<>>, f |-> <<>>, lv |-> <<>>, rs |-> <<>>, d |-> <<>>, sb |-> T.subs0, cn |-> <<>>,
-            st |-> <<0, 0, 0, 0, 0>>, np |-> 0]
+            st |-> <<0, 0, 0, 0, 0>>, np |-> 0, pc |-> 0, fc |-> 0]
 O0(T) == [owed |-> <<>>, tmr |-> <<>>, ackd |-> {}, gone |-> {}, first |-> 0, marked |-> {}, env |-> SeqSet(T.subs0),
-          prev |-> Obs0(T)]
+          ghost |-> {}, prev |-> Obs0(T)]
 
 \* ---------------------------------------------------------------------------
 \* model side: apply record r to model state qq (clock already advanced); result [q, d]
@@ -107,8 +107,28 @@ StateDiff(qq, N) ==
 LimitMoved(N, m, T) == m \notin SeqSet(N.lv) /\ (T.cfg.dlq => m \in SeqSet(N.d))
 CntOf(P, m) == IF m <= Len(P.cn) THEN P.cn[m] ELSE 0
 
-AccountedObs(N, ackd, gone, T) == \A m \in 1..N.np :
-    m \in SeqSet(N.p) \/ m \in SeqSet(N.f) \/ m \in ackd \/ m \in SeqSet(N.d) \/ (~T.cfg.dlq /\ m \in gone)
+\* number of buckets (pending occurrences, in flight, acknowledged, dead-lettered, discarded without DLQ)
+\* in which message m is accounted for on the observed state N
+BucketsObs(N, ackd, gone, T, m) ==
+    Occ(N.p, m) + B2N(m \in SeqSet(N.f)) + B2N(m \in ackd) + Occ(N.d, m) + B2N(~T.cfg.dlq /\ m \in gone)
+\* the same equation on the public counters (pending_count, in_flight_count, stats)
+CountersObs(N, gone, T) ==
+    N.pc + N.fc + N.st[4] + (IF T.cfg.dlq THEN N.st[5] ELSE Cardinality(gone)) = N.st[1]
+\* ghost: ids hit by the known defect "settle_leaves_pending_id" (judged separately, see SettleGhost)
+AccountedObs(N, ackd, gone, ghost, T) ==
+    IF \E m \in 1..N.np : BucketsObs(N, ackd, gone, T, m) = 0 THEN "PROP:message_lost"
+    ELSE IF \E m \in (1..N.np) \ ghost : BucketsObs(N, ackd, gone, T, m) > 1 THEN "PROP:message_accounted_twice"
+    ELSE IF ghost = {} /\ ~CountersObs(N, gone, T) THEN "PROP:counters_do_not_add_up"
+    ELSE ""
+
+\* Signature of the known defect "settle_leaves_pending_id" on an execution: acknowledge() / reject() was
+\* called for a message whose id sat in the pending deque (after schedule_redelivery or a requeue) and the
+\* deque kept every occurrence of it, so the message is now accounted for twice.
+SettleGhost(oo, r) ==
+    /\ r.a \in {"ack", "rej"}
+    /\ r.m \in SeqSet(oo.prev.lv) /\ r.m \in SeqSet(oo.prev.p)
+    /\ IF r.m \in SeqSet(r.o.lv) THEN Occ(r.o.p, r.m) > Occ(oo.prev.p, r.m)     \* requeued: a duplicate id
+                                 ELSE Occ(r.o.p, r.m) >= 1                     \* settled: a stale id
 
 \* The signature of the known defect "stale_now_after_yield" on a failing execution: the delivery event of an
 \* owed delivery was dropped by the engine at its delivery instant because it carried the instant of the
@@ -179,13 +199,13 @@ TimeO(oo, t) ==
 \* ---------------------------------------------------------------------------
 Start(i) ==
     /\ q' = (IF i <= NT THEN InitQ(CfgOf(Traces[i]), Traces[i].subs0) ELSE InitQ([lat |-> 0, rdel |-> 1, maxr |-> 0, cap |-> 0, dlq |-> FALSE], <<>>))
-    /\ o' = (IF i <= NT THEN O0(Traces[i]) ELSE [owed |-> <<>>, tmr |-> <<>>, ackd |-> {}, gone |-> {}, first |-> 0, marked |-> {}, env |-> {}, prev |-> 0])
+    /\ o' = (IF i <= NT THEN O0(Traces[i]) ELSE [owed |-> <<>>, tmr |-> <<>>, ackd |-> {}, gone |-> {}, first |-> 0, marked |-> {}, env |-> {}, ghost |-> {}, prev |-> 0])
     /\ ti' = i /\ l' = 1 /\ bad' = "" /\ badpos' = 0 /\ kbad' = "" /\ kpos' = 0 /\ drift' = "" /\ driftpos' = 0
 
 Init ==
     /\ ti = 1 /\ l = 1 /\ bad = "" /\ badpos = 0 /\ kbad = "" /\ kpos = 0 /\ drift = "" /\ driftpos = 0
     /\ q = (IF NT >= 1 THEN InitQ(CfgOf(Traces[1]), Traces[1].subs0) ELSE InitQ([lat |-> 0, rdel |-> 1, maxr |-> 0, cap |-> 0, dlq |-> FALSE], <<>>))
-    /\ o = (IF NT >= 1 THEN O0(Traces[1]) ELSE [owed |-> <<>>, tmr |-> <<>>, ackd |-> {}, gone |-> {}, first |-> 0, marked |-> {}, env |-> {}, prev |-> 0])
+    /\ o = (IF NT >= 1 THEN O0(Traces[1]) ELSE [owed |-> <<>>, tmr |-> <<>>, ackd |-> {}, gone |-> {}, first |-> 0, marked |-> {}, env |-> {}, ghost |-> {}, prev |-> 0])
 
 Step ==
     LET T == Traces[ti]
@@ -193,8 +213,9 @@ Step ==
         \* contract
         bt == TimeO(o, r.t)
         ao == ApplyO(o, r, T)
-        o2 == [ao.o EXCEPT !.prev = r.o]
-        bacc == IF AccountedObs(r.o, o2.ackd, o2.gone, T) THEN "" ELSE "PROP:message_lost"
+        sg == SettleGhost(o, r)
+        o2 == [ao.o EXCEPT !.prev = r.o, !.ghost = IF sg THEN @ \cup {r.m} ELSE @]
+        bacc == AccountedObs(r.o, o2.ackd, o2.gone, o2.ghost, T)
         b == IF bt # "" THEN bt ELSE IF ao.b # "" THEN ao.b ELSE bacc
         \* model
         dt == IF r.t < q.clock THEN "MODEL:time_backwards"
@@ -205,7 +226,9 @@ Step ==
     IN /\ o' = o2
        /\ IF bad = "" /\ b # "" THEN bad' = b /\ badpos' = l ELSE UNCHANGED <<bad, badpos>>
        /\ IF kbad = "" /\ StaleDiscard(o, r, T)
-          THEN kbad' = "PROP:delivery_discarded_stale_stamp" /\ kpos' = l ELSE UNCHANGED <<kbad, kpos>>
+          THEN kbad' = "PROP:delivery_discarded_stale_stamp" /\ kpos' = l
+          ELSE IF kbad = "" /\ sg
+          THEN kbad' = "PROP:settled_message_left_in_pending" /\ kpos' = l ELSE UNCHANGED <<kbad, kpos>>
        /\ IF drift # "" THEN UNCHANGED <<q, drift, driftpos>>
           ELSE IF d # "" THEN drift' = d /\ driftpos' = l /\ UNCHANGED q
           ELSE q' = am.q /\ UNCHANGED <<drift, driftpos>>
